@@ -135,6 +135,20 @@ def analyse_decorate(ctx, repo, prop_rules):
                        "length refreshed after the Session-Id copy on every path",
                        "after the Session-Id data is replaced the Message Length is not refreshed on every path to the return",
                        key="refresh")
+        # the length is refreshed whenever both messages carry a Session-Id - under no further condition (the handler may have
+        # edited AVP data in place; this refresh is what makes the Message Length of the outgoing answer right)
+        from ..astutil import guards as _guards
+        g_ = _guards(fn)
+        rf_ = [x for x in walk_no_nested(fn) if isinstance(x, ast.Expr) and ast.unparse(x) == f"{A}.refresh()"]
+        from ..astutil import guard_facts
+        allowed_ = {(f"{R}.has_avp('session_id_avp')", True), (f"{A}.has_avp('session_id_avp')", True)}
+        for x in rf_:
+            facts_, resid_ = guard_facts(g_.get(id(x), []))
+            extra_ = sorted(set(facts_.items()) - allowed_) + resid_
+            ctx.decide(not extra_, "R-DOM/session-refresh-exactly", construct, f"{m.rel}:{x.lineno}",
+                       "refresh() runs whenever request and answer carry a Session-Id",
+                       f"the refresh of the Message Length is skipped unless {extra_} also holds: an answer whose AVP data the handler edited "
+                       f"in place leaves the route with a stale Message Length", key="refresh_exactly")
         # guard: copy happens iff request has one (and the answer has one to receive it)
         for p in enum_paths(fn.body, loops="skip"):
             facts = {}
@@ -153,6 +167,36 @@ def analyse_decorate(ctx, repo, prop_rules):
         fams = {}
         for k in (3, 4, 5):
             fams[k] = f"is_{k}xxx_failure({A})"
+        # the E flag is decided by the 3xxx/4xxx/5xxx predicates: they must accept exactly their numeric family (the interval
+        # analysis of C17, run here for the three predicates this property depends on)
+        from . import c17 as _c17
+        um = repo.mods.get("bromelia.utils")
+        accs_ = {}
+        for k in (3, 4, 5):
+            pf = um.funcs.get(f"is_result_code_family_{k}xxx") if um else None
+            if pf is None or len(pf.args.args) != 1:
+                ctx.undecided("R-INTERVAL/eflag-family", f"bromelia.utils.is_result_code_family_{k}xxx", "bromelia/utils.py", "predicate not found", key=f"fam{k}")
+                continue
+            try:
+                acc_ = _c17.accepted_set(repo, um, pf, pf.args.args[0].arg, _c17.U)
+                okf, why = _c17.family_ok(acc_, k)
+                accs_[k] = acc_
+                ctx.decide(okf, "R-INTERVAL/eflag-family", f"bromelia.utils.is_result_code_family_{k}xxx", f"{um.rel}:{pf.lineno}",
+                           f"accepts exactly [{1000*k+1},{1000*k+999}]",
+                           f"the predicate that decides the error flag accepts {acc_}, not exactly [{1000*k+1},{1000*k+999}] ({why}): answers whose "
+                           f"Result-Code is outside the 3xxx/4xxx/5xxx families leave the route with the E flag set (or failures without it)",
+                           key=f"fam{k}")
+            except _c17.Undecidable as e:
+                cex = _c17.witness_refute(repo, um, pf, pf.args.args[0].arg, k)
+                if cex is not None:
+                    ctx.violate("R-INTERVAL/eflag-family", f"bromelia.utils.is_result_code_family_{k}xxx", f"{um.rel}:{pf.lineno}",
+                                f"the predicate that decides the error flag answers {cex[1]} for Result-Code {cex[0]}", key=f"fam{k}")
+                else:
+                    ctx.undecided("R-INTERVAL/eflag-family", f"bromelia.utils.is_result_code_family_{k}xxx", f"{um.rel}:{pf.lineno}",
+                                  f"cannot normalise: {e}", key=f"fam{k}")
+            af = um.funcs.get(f"is_{k}xxx_failure")
+            if af is not None and k in accs_:
+                _c17._answer_pred(ctx, repo, um, af, k, accs_)
         sym_ok = all(repo.resolve(m, f"is_{k}xxx_failure") is not None and repo.resolve(m, f"is_{k}xxx_failure").mod.name == "bromelia.utils"
                      for k in (3, 4, 5))
         ctx.decide(sym_ok, "R-TABLE/eflag-predicates", construct, where, "family predicates resolve to bromelia.utils",
